@@ -207,11 +207,15 @@ func runC15(c *Ctx) {
 			for _, g := range c.region(w.OutChans) {
 				allInstrsRaw(g, func(in ssa.Instruction) {
 					st, ok := in.(*ssa.Store)
-					if !ok || len(exitVals) == 0 {
+					if !ok {
 						return
 					}
 					if fa, ok := st.Addr.(*ssa.FieldAddr); ok && isNamed(fa.X.Type(), "reflect", "SelectCase") && isNamed(st.Val.Type(), "reflect", "Value") {
-						if c.dependsOn(st.Val, isExitVal, 0, map[ssa.Value]bool{}) {
+						if len(exitVals) > 0 && c.dependsOn(st.Val, isExitVal, 0, map[ssa.Value]bool{}) {
+							exitWatched = true
+						}
+						// … or is handed the exit channel itself and wraps it
+						if g != w.OutChans && c.dependsOn(st.Val, func(v ssa.Value) bool { return isLoadOf(v, r.FExiting) }, 0, map[ssa.Value]bool{}) {
 							exitWatched = true
 						}
 					}
